@@ -78,7 +78,10 @@ CLAIMED = {
        "the right one unevaluated), && / || short-circuit in both directions, expression lists, struct fields, calls (function, "
        "then arguments), array / tuple / repeat, index, slice (operand then start, stop, step), assignment (target, value, "
        "read-compute-write), reduce, if (only the chosen branch), match (scrutinee once; value candidates left to right until "
-       "the first hit; unselected arms not evaluated). Tied to the implementation by 152 marker-log templates (every operator "
+       "the first hit; unselected arms not evaluated). LISTS OF ANY LENGTH (Thm/C07Seq): evalList IS the run that evaluates element k "
+       "once, in the store element k-1 left (evalList_run and its converse run_of_evalList: the order is THE order, not one possible "
+       "order); a failing element ends the list with its failure and nothing after it is evaluated (evalList_stops); the same for struct "
+       "fields and statement lists (evalFields_run, evalSeq_run). Tied to the implementation by 152 marker-log templates (every operator "
        "and position, foldable and hidden operands) and marker-dense generated programs compared log-for-log.",
   note=SPEC_NOTE, technique="Lean 4 proof over a reference semantics + differential marker-log correspondence", ref="DESIGN.md §6 C07"),
  "C11": dict(
@@ -97,9 +100,13 @@ CLAIMED = {
        "THE ARRAY ITERATOR (Thm/C11Iter): the closure text of iter.rs with its cursor cell - from a cursor holding j-1 the iterator yields a[j], a[j+1], .. to the end, "
        "each once, in order, then exhaustion, for every array shorter than 2^63 (iter_pulls; wrap-around, signed comparison and index normalisation discharged by the C08 "
        "operator theorems); `e~ $]` evaluates to the array e evaluates to (iter_then_collect); end to end, `a~ @ g $]` is map g a and `a~ ? p $]` is filter p a for callbacks computing g / p (iter_map_collect, iter_filter_collect). "
+       "PIPELINES OF ANY LENGTH (Thm/C11Chain): an invariant every stage preserves - LL it f xs: called repeatedly, `it` returns the elements of xs in order and then an "
+       "end marker - holds of `a~` with a (iter_LL) and is carried through `@ g`, `? p`, `? T` to map h / filter q / filter (type test) of the list (map_LL, filter_LL, tfilter_LL); by "
+       "induction over the list of stages, `a~ s1 .. sn` pulls exactly spec_n(..(spec_1 a)) and `.. $]` is that array, for every number and order of stages and callbacks that "
+       "compute the named functions without touching the store (pipeline_LL, pipeline_pulls, pipeline_collect); a built-in reducer or `$ init g` over such a pipeline is the fold over the composed list (pipeline_reduce, pipeline_fold); at the level of the expression, `e~ @ g $]` evaluates to the array of map h es (iter_map_collect_expr). "
        "Tied to the implementation by operator pipelines over array-derived and user-written sources with logging callbacks, "
        "compared three ways: implementation, Spec, and an independent Python simulation of list semantics (value and log).",
-  note=SPEC_NOTE + " The three closure texts and the array iterator are proved for runs of any length; chains are composed step by step (two chain theorems), not by one general composition theorem.",
+  note=SPEC_NOTE + " The three closure texts and the array iterator are proved for runs of any length; pipelines of any length are proved for store-independent callbacks (pipeline_collect); with effectful callbacks they are composed step by step (call-level theorems).",
   technique="Lean 4 proof over a reference semantics (consumers as folds of any pull sequence; the array iterator enumerates its array; map, filter and type-filter closures yield the mapped / accepted elements for runs of any length; reduce and partition as list functions) + differential pipelines + list-semantics oracle", ref="DESIGN.md §6 C11"),
  "C12": dict(
   text="Lean 4 theorems about Spec: a function call never lets break / continue / return escape (all other signals pass), turns "
@@ -109,7 +116,14 @@ CLAIMED = {
        "other arm), an uncovered match is `wrong`; blocks evaluate to their last statement; and over the model of "
        "Match::is_covering_type / MatchArm::covers: a match the checker accepts always has an arm for the value it meets "
        "(coverage_sound: if the arms cover the static type T, then for every run-time type R below T some arm's run-time test "
-       "succeeds - through unions member by member and, for type arms, by transitivity of matches). Tied to the implementation by 248 "
+       "succeeds - through unions member by member and, for type arms, by transitivity of matches). LOOPS OF ANY NUMBER OF ITERATIONS "
+       "(Thm/C12Loops): `while`, `while x: T = e` and `loop` are their runs - condition / type test before every iteration in the store the "
+       "previous one left, the body exactly while it holds, the end at the first false condition or `break`, value () (while_run, "
+       "whileSet_run, loop_run, with the iteration count in the statement); a return / error in iteration n+1 leaves the loop with that signal "
+       "after n complete iterations (while_escapes); `for` likewise (C11.for_run). MATCH WITH ANY NUMBER OF ARMS: the arms before the first covering one "
+       "are tried top to bottom - a type arm that does not match is skipped without evaluating anything, a value arm evaluates all its candidates left to "
+       "right - and the first covering arm's body runs (with the binder in its own frame); the candidates after the first equal one and all later arms are "
+       "never evaluated (arms_skipped, match_first_type_arm / _value_arm / _other_arm, cand_hit, cand_miss). Tied to the implementation by 248 "
        "systematic templates (4 loops x 7 enclosing constructs x 3 signals, nested loops, all arm orders, 13 array-tag provenances).",
   note=SPEC_NOTE, technique="Lean 4 proof over a reference semantics + differential control-flow templates", ref="DESIGN.md §6 C12"),
  "C13": dict(
